@@ -1,5 +1,5 @@
 import FpgoVerif.Model.C09
-import FpgoVerif.Proofs.C09Prog
+import FpgoVerif.Proofs.C09Prog0
 import FpgoVerif.Gen.Skeletons
 import FpgoVerif.Gen.PoolGuards
 /-! Property theorems for C09 — WorkerPool: an accepted job runs exactly once, ≤ workerSizeMaximum jobs run
@@ -246,6 +246,54 @@ theorem C09_progress_steps (c : Cfg) (s : St) :
   · intro i e h1 h2 h3 h4
     have : ¬ (e = 0 ∨ c.max = 0) := by omega
     simp [step, stepPool, h1, h2, genWorker, h3, this]
+
+/-- C09_progress_on_demand (invariant; the on-demand configuration of the property's quantifier: "standby 0 with
+    workerBatchSize ≥ 1 and an idle-expiry longer than the run" — `ReachNE` = every execution in which no idle
+    worker's expiry timer fires; workerSizeMaximum ≥ 1; any standby, any number of submitters / workers, any
+    interleaving): whenever the pool is open and a job is queued, a worker is in its loop or dying on a panic (it
+    will post the spawn token), or the token is pending, or a Schedule call is about to post it, or the spawn loop
+    is awake and will call generateWorkerWithMaximum with a positive target (`spWill0`: it has not read the queue
+    length yet, or its first `Count()` read is still the length of the queue — then both reads agree and
+    n/batch + (n % batch > 0) ≥ 1 —, or the computed target is positive).  With standby = 0 the target CAN be 0
+    although a job is queued (n1 = 1, n2 = 2, batch = 2: 1/2 + (2 % 2 > 0) = 0, second example below); the job
+    that arrived between the two reads then still owes the token, which is what the invariant carries. -/
+theorem C09_progress_on_demand (c : Cfg) (hb : 1 ≤ c.batch) (hm : 1 ≤ c.max)
+    (s : St) (h : ReachNE c s) (ho : s.closed = false) (hq : s.queue ≠ []) : Good0 s :=
+  (reachNE_invG0 hb hm h).good ho hq
+
+/-- the step behind the `cnt2` disjunct of `spWill0`: with an accurate first read of a non-empty open queue the
+    second read agrees and the target computed by trySpawn is positive, whatever the jam clause says -/
+theorem C09_progress_on_demand_steps (c : Cfg) (hb : 1 ≤ c.batch) (hm : 1 ≤ c.max) (s : St) (n1 : Nat) (jam : Bool)
+    (hsp : s.sp = .cnt2 n1) (hn : n1 = s.queue.length) (hq : s.queue ≠ []) (hqc : s.qclosed = false) :
+    ∃ e, step c s (.spCnt2 jam) = some { s with sp := .computed e } ∧ 1 ≤ e := by
+  have hlen : 1 ≤ s.queue.length := by
+    cases hl : s.queue with
+    | nil => exact absurd hl hq
+    | cons _ _ => simp
+  refine ⟨expected c n1 (qcount s) s.count s.busy jam, by simp [step, stepPool, hsp], ?_⟩
+  have := expected_pos0 c s.queue.length s.count s.busy jam hb hm hlen
+  simpa [qcount, hqc, hn] using this
+
+/-- non-vacuity of C09_progress_on_demand, the zero-target case: standby 0, batch 2; the spawn loop reads Count() = 1,
+    a second job is accepted, it reads Count() = 2: target 1/2 + (2 % 2 > 0) = 0, nothing is spawned, the loop goes back
+    to waiting — with the second Schedule's token pending, so it wakes again -/
+example : ∃ s, ReachNE ⟨2, 0, 2, 4, 0, true, true⟩ s ∧ s.closed = false ∧ s.queue = [0, 1] ∧ s.count = 0 ∧
+    s.sp = .wait ∧ s.token = true :=
+  ⟨_, reachNE_runActs (s := init) [.submit false, .sCheck 0, .sOffer 0 false, .sToken 0, .spWake, .spCheck, .spCnt1,
+      .submit false, .sCheck 1, .sOffer 1 false, .spCnt2 false, .sToken 1, .spRead, .spSleep]
+      (by intro a ha w hw; subst hw; simp at ha) ReachNE.init rfl,
+   by decide, by decide, by decide, by decide, by decide⟩
+
+/-- … and why the quantifier asks for "an idle-expiry longer than the run" when standby = 0: if the only worker's
+    expiry timer fires after the spawn loop has handled the token of an accepted job (count 1 ≥ target 1: nothing
+    spawned) and before the worker's select takes the job, the worker retires (count 1 > standby 0) and the job is
+    stranded — open pool, queued job, no worker, no token, spawn loop waiting.  This is a behaviour of the code as it
+    is (outside the property's quantifier), kernel-checked on the same transition system. -/
+theorem C09_on_demand_needs_no_expiry :
+    ∃ s, Reach ⟨1, 0, 1, 2, 0, true, true⟩ s ∧ s.closed = false ∧ s.queue = [0] ∧ s.count = 0 ∧ ¬ Good0 s ∧ ¬ Good s :=
+  ⟨_, reach_runActs (s := init) [.gen 1, .wCheck 0, .submit false, .sCheck 0, .sOffer 0 false, .sToken 0, .spWake,
+      .spCheck, .spCnt1, .spCnt2 false, .spRead, .spSleep, .wExpire 0] Reach.init rfl,
+   by decide, by decide, by decide, by decide, by decide⟩
 
 /-- The mechanism before `proposed-fix-expiry-race.patch` (decision under RLock, decrement later in the deferred
     exit; `atomicExpiry = false`) does NOT satisfy the progress invariant, standby = 1 notwithstanding: two
